@@ -10,6 +10,9 @@ import reader_extra
 import layout_rules
 import hll_rules
 import quantile_rules
+import flag_sections
+import theta_rules
+import reader_assigns
 import json, os
 from vlib.core import VERIF
 
@@ -48,6 +51,18 @@ def run(facts, tier):
     obs += o
     rules.append({"rule": "hll ooo/hip", "instances": len(o), "min": 3,
                   "text": "a field the readers skip under a flag (HLL hipAccum when out-of-order) is zeroed wherever that flag is set, so the image of a union result survives its own round trip"})
+    o = flag_sections.obligations(facts)
+    obs += o
+    rules.append({"rule": "flag / section coherence", "instances": len([x for x in o if x["status"] != "info"]), "min": 30,
+                  "text": "a flag bit on which a reader decides whether a section follows is set by the writers from state that also guards writes of a section (not from another predicate that differs in some states)"})
+    o = theta_rules.entry_bits_cover_all_deltas(facts)
+    obs += o
+    rules.append({"rule": "compressed deltas", "instances": len(o), "min": 1,
+                  "text": "the field width of compressed compact theta images covers every delta of the ordered hashes, the first one counted from zero"})
+    o = reader_assigns.obligations(facts)
+    obs += o
+    rules.append({"rule": "reader conditional assignments", "instances": len([x for x in o if x["status"] != "info"]), "min": 40,
+                  "text": "defaults and derived values a reader assigns to restored state only on some paths are still assigned under the reviewed branch conditions (spec/reader_assigns.json)"})
     o = layout_rules.estimation_state_written(facts)
     obs += o
     rules.append({"rule": "estimation state written", "instances": len(o), "min": 8,
